@@ -23,6 +23,10 @@ func run(n int, less, equal func(int) bool) string {
 		fmt.Fprintf(&sb, " l%d", i)
 		return less(i)
 	}, func(i int) bool {
+		probes++
+		if probes > 200 {
+			panic("too many probes")
+		}
 		fmt.Fprintf(&sb, " e%d", i)
 		return equal(i)
 	})
@@ -92,6 +96,39 @@ func gen(c *hx.Ctx) {
 		}
 		c.Emit("mono %d %d %d", n, b, e)
 		c.Count("mono_large")
+	}
+	// counts beyond 2^62 up to MaxInt: i+j no longer fits a signed int, the midpoint must be computed unsigned
+	for i := 0; i < c.Budget(400, 20000); i++ {
+		const maxInt = int(^uint(0) >> 1)
+		n := maxInt - int(c.Rng.U64()>>2)%(1<<uint(c.Rng.Range(1, 61)))
+		var b int
+		switch c.Rng.Intn(6) {
+		case 0:
+			b = n
+		case 1:
+			b = n - 1
+		case 2:
+			b = n/2 + int(c.Rng.U64()>>3)
+		case 3:
+			b = int(c.Rng.U64() >> 1 % uint64(n))
+		default:
+			b = n - int(c.Rng.U64()>>2)%(1<<uint(c.Rng.Range(1, 61)))
+		}
+		if b < 0 {
+			b = 0
+		}
+		if b > n {
+			b = n
+		}
+		e := 0
+		if b < n && c.Rng.Bool() {
+			e = 1 + int(c.Rng.U64()>>2)%(n-b)
+			if c.Rng.Bool() {
+				e = 1
+			}
+		}
+		c.Emit("mono %d %d %d", n, b, e)
+		c.Count("mono_huge")
 	}
 	for i := 0; i < c.Budget(500, 20000); i++ {
 		n := c.Rng.Range(5, 62)
